@@ -272,7 +272,7 @@ pub fn run(ctx: &Ctx) -> CheckResult {
                 // short prefixes also with the long-running instance serialized + restored / replaced by
                 // its clone right before the last input
                 if p.len() <= 1 {
-                    for via in [Via::Serde, Via::Clone] {
+                    for via in VIAS {
                         out.stats.transitions += full.len() as u64;
                         let ok = match replay_last_via(cfg, &full, via) {
                             Ok(a2) => compare(cfg, &full, &suffix, &a2, &b, &mut out),
@@ -283,8 +283,8 @@ pub fn run(ctx: &Ctx) -> CheckResult {
                         };
                         if !ok {
                             if let Some(v) = out.violations.last_mut() {
-                                v.detail.push_str(if via == Via::Serde { " [the instance was serialized with bincode and restored right before the last input]" } else { " [the instance was replaced by its clone right before the last input]" });
-                                v.extra.insert("checkpoint".into(), format!("{}@{}", if via == Via::Serde { "serde" } else { "clone" }, full.len() - 1));
+                                v.detail.push_str(&format!(" [the instance was {} right before the last input]", via.text()));
+                                v.extra.insert("checkpoint".into(), format!("{}@{}", via.tag(), full.len() - 1));
                             }
                             return false;
                         }
